@@ -850,6 +850,8 @@ class ArgumentParser(ParserDeprecations, ActionsContainer, ArgumentLinking, argp
                 default = subdefaults[key]
                 class_object_val = None
                 if is_subclass_spec(val):
+                    if not isinstance(default, dict):
+                        continue  # the default is not a class spec (e.g. None): nothing of the value is default
                     if val["class_path"] != default.get("class_path"):
                         with parser_context(parent_parser=self):
                             parser = ActionTypeHint.get_class_parser(val["class_path"])
